@@ -52,11 +52,14 @@ def _r6(ctx):
     pkg = package(ctx.tree)
     ih = pkg.method("InitCommand", "handle")
     ctx.saw(INIT, "InitCommand.handle")
-    loops = [n for n in ast.walk(ih) if isinstance(n, ast.For) and "ode_modifier_str" in ast.unparse(n.iter)]
+    # by role: D = the local handed on as `ode_modifier=`; the loop = the outermost `for` over the option occurrences
+    # (a local assigned from self.option("ode-modifier")) 
+    D = next((k.value.id for c in ast.walk(ih) if isinstance(c, ast.Call) for k in c.keywords if k.arg == "ode_modifier" and isinstance(k.value, ast.Name)), "ode_modifier")
+    optvars = {t.id for n in ast.walk(ih) if isinstance(n, ast.Assign) and "option('ode-modifier')" in ast.unparse(n.value) for t in n.targets if isinstance(t, ast.Name)}
+    loops = [n for n in ast.walk(ih) if isinstance(n, ast.For) and isinstance(n.iter, ast.Name) and n.iter.id in optvars]
     if len(loops) != 1:
         ctx.missing("R6", "--ode-modifier loop", (INIT, ih.lineno), f"expected one loop over the --ode-modifier occurrences, found {len(loops)}")
         return
-    D = "ode_modifier"
     problems, entry_alias, appends, creates = [], set(), set(), 0
 
     def absent_guard(test, pol):
@@ -181,7 +184,12 @@ def _r7(ctx):
 def _r1(ctx, m):
     fl = m.flow
     W = (FILE, m.func.lineno)
-    stores = [f for f in fl.facts if f.target == "rateeqns" and f.kind not in ("init",)]
+    # by role: the local that receives self._assign_rates(...) (the list of `k[i] = ...;` statements)
+    rname = "rateeqns"
+    for nm, lst in fl.assigns.items():
+        if lst and lst[0][0][0] == "meth" and lst[0][0][2] == "_assign_rates" and any(simp(a) == m.REAC for a in lst[0][0][3]):
+            rname = nm
+    stores = [f for f in fl.facts if f.target == rname and f.kind not in ("init",)]
     if len(stores) != 1:
         (ctx.bad if stores else ctx.missing)("R1", "rateeqns:writers", W,
                                              f"expected exactly one override store into rateeqns, found {len(stores)} ({[f.kind + '@' + str(f.line) for f in stores]})")
@@ -242,14 +250,17 @@ def _r2(ctx):
                         v = node.value
                         src = ast.unparse(v)
                         ok = (isinstance(v, ast.Call) and isinstance(v.func, ast.Name) and v.func.id == "int") or \
-                            (isinstance(v, ast.Name) and v.id in ("idxfromfile", "idx")) or \
                             (isinstance(v, ast.Constant) and isinstance(v.value, int))
-                        if isinstance(v, ast.Name) and v.id == "idx":
-                            # must be an enumerate counter
+                        role = src[:40]
+                        if isinstance(v, ast.Name):
                             fn = next((x for x in ast.walk(mod) if isinstance(x, ast.FunctionDef) and node in list(ast.walk(x))), None)
-                            ok = fn is not None and any(isinstance(x, ast.For) and isinstance(x.iter, ast.Call) and ast.unparse(x.iter.func) == "enumerate"
-                                                        and isinstance(x.target, ast.Tuple) and ast.unparse(x.target.elts[0]) == "idx" for x in ast.walk(fn))
-                        ctx.check(ok, "R2", f"{f}:idxfromfile = {src[:40]}", (f, node.lineno),
+                            # an enumerate counter, or the parameter `idxfromfile` (int by default and annotation)
+                            is_counter = fn is not None and any(isinstance(x, ast.For) and isinstance(x.iter, ast.Call) and ast.unparse(x.iter.func) == "enumerate"
+                                                                and isinstance(x.target, ast.Tuple) and ast.unparse(x.target.elts[0]) == v.id for x in ast.walk(fn))
+                            is_param = fn is not None and v.id == "idxfromfile" and v.id in [a.arg for a in fn.args.args]
+                            ok = is_counter or is_param
+                            role = "<enumerate counter>" if is_counter else v.id
+                        ctx.check(ok, "R2", f"{f}:idxfromfile = {role}", (f, node.lineno),
                                   "idxfromfile is assigned an int (int(...) / enumerate counter / int parameter)", found=src[:60])
     ctx.floor("R2", "idxfromfile definitions", n, 6)
     # parameter default and annotation
@@ -271,17 +282,23 @@ def _r2(ctx):
     h = pkg.method("RenderCommand", "handle")
     ctx.saw(RENDER, "RenderCommand.handle")
     conv = None
+    # by role: the local handed to Network(rate_modifier=...)
+    passed = {ast.unparse(k.value) for c in ast.walk(h) if isinstance(c, ast.Call) and ast.unparse(c.func) == "Network" for k in c.keywords if k.arg == "rate_modifier"}
     for node in ast.walk(h):
-        if isinstance(node, ast.Assign) and any(isinstance(t, ast.Name) and t.id == "rate_modifier" for t in node.targets) and isinstance(node.value, ast.DictComp):
+        if isinstance(node, ast.Assign) and any(isinstance(t, ast.Name) and t.id in passed for t in node.targets) and isinstance(node.value, ast.DictComp):
             conv = node
-    okc = conv is not None and ast.unparse(conv.value.key) in ("int(key)", "int(k)") and "rate_modifier.items()" in ast.unparse(conv.value.generators[0].iter)
+    okc = False
+    if conv is not None:
+        g0 = conv.value.generators[0]
+        kname = g0.target.elts[0].id if isinstance(g0.target, ast.Tuple) and isinstance(g0.target.elts[0], ast.Name) else None
+        okc = ast.unparse(conv.value.key) == f"int({kname})" and ast.unparse(g0.iter).endswith(".items()") and not g0.ifs
     ctx.check(okc, "R2", "RenderCommand.handle:int(key)", (RENDER, conv.lineno if conv else h.lineno),
               "TOML keys (strings) are converted to int before they are compared with idxfromfile",
               expected="{int(key): value for key, value in rate_modifier.items()}", found=ast.unparse(conv.value)[:90] if conv else "no conversion")
     # the Network(...) call receives the converted dict
     if conv is not None:
         later = [c for c in ast.walk(h) if isinstance(c, ast.Call) and ast.unparse(c.func) == "Network" and c.lineno > conv.lineno]
-        ok = any(any(k.arg == "rate_modifier" and ast.unparse(k.value) == "rate_modifier" for k in c.keywords) for c in later)
+        ok = any(any(k.arg == "rate_modifier" and ast.unparse(k.value) == ast.unparse(conv.targets[0]) for k in c.keywords) for c in later)
         ctx.check(ok, "R2", "RenderCommand.handle:Network(rate_modifier=)", (RENDER, later[0].lineno if later else conv.lineno),
                   "the converted dictionary is what Network(...) receives")
     # writer: string keys
@@ -308,8 +325,7 @@ def _r3(ctx):
     ctx.saw(FILE, "TemplateLoader.render")
     fl = Flow(fn, FILE)
     calls = [f for f in fl.facts if f.kind == "call" and f.target == "reindex"]
-    odeassign = fl.assigns.get("ode", [])
-    prep = [(v, loops, g, line, seq) for v, loops, g, line, seq in odeassign if v[0] == "meth" and v[2] == "_prepare_ode_content"]
+    prep = [(v, loops, g, line, seq) for lst in fl.assigns.values() for v, loops, g, line, seq in lst if v[0] == "meth" and v[2] == "_prepare_ode_content"]
     if len(calls) != 1 or len(prep) != 1:
         ctx.missing("R3", "render:reindex/prepare", (FILE, fn.lineno), f"expected one network.reindex() and one _prepare_ode_content call, found {len(calls)}/{len(prep)}")
     else:
@@ -443,7 +459,9 @@ def _r5(ctx, m):
     ctx.saw(EXAMPLE, "ExampleCommand.handle")
     k2 = set()
     for n in ast.walk(h):
-        if isinstance(n, ast.For) and "ode_modifier.items()" in ast.unparse(n.iter):
+        # by role: the loop over <table>.items() whose body zips two string-keyed fields of the value
+        if isinstance(n, ast.For) and isinstance(n.iter, ast.Call) and isinstance(n.iter.func, ast.Attribute) and n.iter.func.attr == "items" and \
+                any(isinstance(x, ast.For) and isinstance(x.iter, ast.Call) and ast.unparse(x.iter.func) == "zip" and _str_keys(x.iter) for x in ast.walk(n)):
             k2 |= _str_keys(n)
     sets[(EXAMPLE, "ExampleCommand.handle (reader)")] = k2
     # writer: init.py
